@@ -4,14 +4,16 @@ package ast
 
 import (
 	"strings"
+	"time"
 
 	"github.com/openziti/storage/verifrt"
 )
 
 type vWordProg struct {
 	text    string
-	kind    int // 0 in, 1 between, 2 contains, 3 icontains
+	kind    int // 0 in, 1 between, 2 contains, 3 icontains, 4 literal spelling an operator word
 	negated bool
+	lit     string
 }
 
 // spellings of a (possibly negated) word operator: keywords are
@@ -48,17 +50,37 @@ func verifC12Words() []vWordProg {
 	var out []vWordProg
 	for _, neg := range []bool{false, true} {
 		for _, sp := range verifWordSpellings("in", neg) {
-			out = append(out, vWordProg{`s ` + sp + ` ["x", "yz"]`, 0, neg})
+			out = append(out, vWordProg{`s ` + sp + ` ["x", "yz"]`, 0, neg, ""})
 		}
 		for _, sp := range verifWordSpellings("between", neg) {
-			out = append(out, vWordProg{`n ` + sp + ` 1 and 3`, 1, neg}, vWordProg{`n ` + sp + ` 1 AND 3`, 1, neg})
+			out = append(out, vWordProg{`n ` + sp + ` 1 and 3`, 1, neg, ""}, vWordProg{`n ` + sp + ` 1 AND 3`, 1, neg, ""})
 		}
 		for _, sp := range verifWordSpellings("contains", neg) {
-			out = append(out, vWordProg{`s ` + sp + ` "x"`, 2, neg})
+			out = append(out, vWordProg{`s ` + sp + ` "x"`, 2, neg, ""})
 		}
 		for _, sp := range verifWordSpellings("icontains", neg) {
-			out = append(out, vWordProg{`s ` + sp + ` "x"`, 3, neg})
+			out = append(out, vWordProg{`s ` + sp + ` "x"`, 3, neg, ""})
 		}
+	}
+	// datetime literals: t/z case and padding inside the parentheses. (The
+	// literal prefix `datetime(` itself is spelled with a fixed lower-case lexer
+	// literal, not with the letter fragments the keywords use; an upper-case
+	// DATETIME( is rejected by the lexer. It is literal syntax rather than a
+	// keyword or word operator, so the check does not demand it.)
+	for _, body := range []string{"2020-01-02T03:04:05Z", "2020-01-02t03:04:05z", "2020-01-02T05:04:05+02:00"} {
+		for _, kw := range []string{"datetime("} {
+			for _, pad := range []string{"", " ", "\t", "\n", "\r\n ", "  \t"} {
+				out = append(out, vWordProg{"t < " + kw + pad + body + pad + ")", 5, false, ""})
+			}
+		}
+	}
+	out = append(out, vWordProg{"t < datetime(\t2020-01-02T03:04:05Z)", 5, false, ""}, vWordProg{"t < datetime(2020-01-02T03:04:05Z\n)", 5, false, ""})
+	// operator words inside string literals are data, not operators
+	for _, lit := range []string{"not", "no", "NOT ", "t not in"} {
+		out = append(out,
+			vWordProg{`s contains "` + lit + `"`, 4, false, lit},
+			vWordProg{`s not contains "` + lit + `"`, 4, true, lit},
+			vWordProg{`s = "` + lit + `" or s contains "` + lit + `"`, 4, false, lit})
 	}
 	return out
 }
@@ -81,10 +103,19 @@ func VerifC12_WordOperators() {
 	fam := verifC12Words()
 	p := fam[verifrt.Choose("program", len(fam))]
 	st := newSymTab()
-	sv := verifrt.StringUpTo("s", 2)
+	maxS := 2
+	if p.kind == 4 {
+		maxS = len(p.lit) + 1
+	}
+	sv := verifrt.StringUpTo("s", maxS)
 	nv := verifrt.Int64("n")
 	st.syms["s"] = &vSym{typ: NodeTypeString, s: sv}
 	st.syms["n"] = &vSym{typ: NodeTypeInt64, i: nv}
+	var tv time.Time
+	if p.kind == 5 {
+		tv = verifrt.TimeUTC("t")
+		st.syms["t"] = &vSym{typ: NodeTypeDatetime, t: tv}
+	}
 	q, err := Parse(st, p.text)
 	verifrt.Assert(err == nil, "C12 word-operator query parses: "+p.text)
 	got := q.EvalBool(st)
@@ -98,6 +129,10 @@ func VerifC12_WordOperators() {
 		want = strings.Contains(sv, "x")
 	case 3:
 		want = verifrt.Or(strings.Contains(sv, "x"), strings.Contains(sv, "X"))
+	case 4:
+		want = strings.Contains(sv, p.lit)
+	case 5:
+		want = tv.Before(vT0)
 	}
 	if p.negated {
 		want = verifrt.Not(want)
